@@ -73,7 +73,7 @@ package load
 //@ func (*adaptiveShedder).shouldDrop
 //@   prop C09
 //@   opaque Sprintf, Error, Report, CpuUsage, maxPass, minRt
-//@   requires shOK(as)
+//@   requires shOK(as) && 0.0 <= as.avgFlying && as.avgFlying < 9000000000000000000.0 && as.windows >= 0 && as.windows <= 1000000
 //@   let overloaded = ret(as.systemOverloaded)
 //@   let dropped0 = old(*as.droppedRecently) == 1
 //@   let ot0 = old(*as.overloadTime)
